@@ -1635,7 +1635,7 @@ mod tk {
     /// first polls, afterwards woken operations are polled FIFO. The spawned transport tasks run on the
     /// paused tokio runtime; `settle` lets them run until idle (after every poll when `eager`, else only
     /// when no client operation is ready).
-    fn run_manual(case: &Arc<Case>, perm: &[usize], eager: bool) -> (Vec<Ev>, bool, usize) {
+    fn run_manual(case: &Arc<Case>, perm: &[usize], eager: bool, repoll: u8) -> (Vec<Ev>, bool, usize, u64) {
         let h = new_hist(case);
         let h2 = Arc::clone(&h);
         let case2 = Arc::clone(case);
@@ -1664,10 +1664,26 @@ mod tk {
                 m.spawn(f);
             }
             // first polls in the order of the permutation
+            // `repoll`: an operation that is still pending is polled a second time (the poll scheduler hands out
+            // a new waker for every poll and ignores wakes through older ones) 1 = right away, 2 = after the
+            // first poll of the next operation
+            let mut prev: Option<usize> = None;
             for p in &perm {
-                m.poll_task(*p % nops);
+                let id = *p % nops;
+                m.poll_task(id);
                 if eager {
                     settle().await;
+                }
+                if repoll == 1 && !m.is_done(id) {
+                    m.poll_task(id);
+                }
+                if repoll == 2 {
+                    if let Some(q) = prev {
+                        if !m.is_done(q) {
+                            m.poll_task(q);
+                        }
+                    }
+                    prev = Some(id);
                 }
             }
             let mut fifo = |_: &[usize]| 0usize;
@@ -1687,14 +1703,15 @@ mod tk {
                 }
             }
             let done = m.all_done();
+            let stale = m.stale_wakes();
             drop(m);
             drop(txs);
             drop(world);
-            (done, nops)
+            (done, nops, stale)
         });
         match r {
-            Paused::Done((done, nops)) => (snapshot(&h), done, nops),
-            Paused::Quiescent => (snapshot(&h), false, 0),
+            Paused::Done((done, nops, stale)) => (snapshot(&h), done, nops, stale),
+            Paused::Quiescent => (snapshot(&h), false, 0, 0),
         }
     }
 
@@ -1737,7 +1754,7 @@ mod tk {
             let total_perms: u64 = (1..=nops as u64).product();
             let take = total_perms.min(720);
             for p in 0..take {
-                for eager in [true, false] {
+                for (eager, repoll) in [(true, 0u8), (false, 0), (true, 1), (false, 2)] {
                     job += 1;
                     if !env.mine(job) {
                         continue;
@@ -1749,11 +1766,15 @@ mod tk {
                     }
                     let pk = if take == total_perms { p } else { VRng::new(env.seed ^ 0x77, p).below(total_perms) };
                     let perm = nth_permutation(nops, pk);
-                    let (ev, done, _) = run_manual(&case, &perm, eager);
-                    let nf = account(&mut rec, &case, &ev, done, "manual", json!({"job": job, "perm": perm, "eager": eager}));
+                    let (ev, done, _, stale) = run_manual(&case, &perm, eager, repoll);
+                    let nf = account(&mut rec, &case, &ev, done, "manual", json!({"job": job, "perm": perm, "eager": eager, "repoll": repoll}));
                     if nf == 0 {
                         rec.count("manual_orders_completed");
+                        if repoll != 0 {
+                            rec.count("manual_orders_with_second_poll_under_new_waker");
+                        }
                     }
+                    rec.add("manual_wakes_through_superseded_wakers", stale);
                 }
             }
         }
